@@ -22,7 +22,7 @@ impl ReplayProtection {
     }
 
     pub fn already_received(&self, sequence: u64) -> bool {
-        if sequence + NETCODE_REPLAY_BUFFER_SIZE as u64 <= self.most_recent_sequence {
+        if sequence.saturating_add(NETCODE_REPLAY_BUFFER_SIZE as u64) <= self.most_recent_sequence {
             return true;
         }
 
